@@ -259,9 +259,13 @@ def judge(d):
                 if len(idx) == 0:
                     continue
                 add(real.subset(spec), MTable(cols, [mt.rows[i] for i in idx]))
-            elif kind == "mask":
+            elif kind in ("mask", "mask-list", "mask-series"):
                 mask = [bool(op["mask"][i % len(op["mask"])]) for i in range(n)] if op["mask"] else [True] * n
-                add(real.subset(np.array(mask, dtype=bool)), MTable(cols, [r for r, b in zip(mt.rows, mask) if b]))
+                # "any object numpy slicing is defined for": a bool array, a plain list of bools, a boolean polars Series
+                spec = np.array(mask, dtype=bool) if kind == "mask" else (list(mask) if kind == "mask-list" else pl.Series(mask, dtype=pl.Boolean))
+                if n == 0 and kind != "mask":
+                    continue
+                add(real.subset(spec), MTable(cols, [r for r, b in zip(mt.rows, mask) if b]))
         elif name == "filter":
             if op["kind"] == "mask" or not cols:
                 mask = [bool(op["mask"][i % len(op["mask"])]) for i in range(n)] if op["mask"] else [True] * n
@@ -507,7 +511,7 @@ def op_strategy(draw, palette):
     if name == "new":
         op["spec"] = draw(table_spec(palette=palette))
     elif name == "subset":
-        op["kind"] = draw(st.sampled_from(["int", "slice", "list", "array", "mask"]))
+        op["kind"] = draw(st.sampled_from(["int", "slice", "list", "array", "mask", "mask-list", "mask-series"]))
         op["i"] = draw(st.integers(0, 20))
         op["start"] = draw(st.one_of(st.none(), st.integers(-9, 9)))
         op["stop"] = draw(st.one_of(st.none(), st.integers(-9, 9)))
